@@ -329,8 +329,29 @@ let explore_cases (cls : char) (cases : case list) (oc : out_channel) (limit : i
         | Some o -> let (h1, _) = step !h o in h := h1
         | None -> ()) c.steps;
       let cfg = init_config keqb directed !h (thread_progs c) in
-      let scheds = explore keqb directed conc_fuel cfg [] in
-      let n = List.length scheds in
+      (* depth-first enumeration of the maximal schedules with the model's own step function (Conc.cstep), like
+         Conc.explore but bounded: serial schedules are always kept, the others up to `limit` (0 = up to 20000) *)
+      let cap = if limit <= 0 then 20000 else limit in
+      let acc = ref [] and total = ref 0 and kept_nonserial = ref 0 in
+      let nthreads = List.length cfg.c_threads in
+      let rec dfs (cf : (n, z, n) config) (prefix : nat list) (depth : int) : unit =
+        let tids = List.filter (fun i -> match List.nth_opt cf.c_threads i with
+                                         | Some t -> (match t.t_status, t.t_cur with TRun, Some (Step _) -> true | _ -> false)
+                                         | None -> false) (List.init nthreads (fun i -> i)) in
+        if tids = [] || depth > 400 then begin
+          incr total;
+          let sc = List.rev prefix in
+          if is_serial directed cfg sc then acc := sc :: !acc
+          else if !kept_nonserial < cap then begin incr kept_nonserial; acc := sc :: !acc end
+        end else
+          List.iter (fun i ->
+            if !total < 400000 then
+              let (c1, _) = cstep keqb directed cf (nat_of_int i) in
+              dfs c1 (nat_of_int i :: prefix) (depth + 1)) tids in
+      dfs cfg [] 0;
+      let scheds = List.rev !acc in
+      let n = !total in
+      let limit = 0 in
       let pre = List.filter (fun st -> st.(0) <> "explore") c.steps in
       let nonserial = ref 0 in
       List.iteri (fun i sc ->
